@@ -333,13 +333,14 @@ def _effect_free(p, fi, depth: int = 0) -> bool:
     """Conservative: the function only binds local names and calls array-library / builtin functions known to be pure
     (or package functions that are effect-free themselves).  Any store into a subscript or attribute, any in-place
     operator on a parameter, any other call (print, file / MPI / h5py objects, unknown methods) makes it not effect-free."""
-    if fi is None or depth > 2 or isinstance(fi.node, ast.Lambda) or fi.is_abstract:
-        return False
+    if fi is None or depth > 2 or isinstance(fi.node, ast.Lambda) or fi.is_abstract or _is_stub(fi.node):
+        return False                  # an empty hook is a place holder, not a lost update
     params = {q.name for q in fi.params}
     mod = p.modules[fi.module]
     for n_ in ast.walk(fi.node):
-        if isinstance(n_, (ast.Global, ast.Nonlocal, ast.Yield, ast.YieldFrom, ast.Await, ast.With, ast.Raise, ast.Try, ast.Delete)):
-            return False
+        if isinstance(n_, (ast.Global, ast.Nonlocal, ast.Yield, ast.YieldFrom, ast.Await, ast.With, ast.Raise, ast.Try, ast.Delete,
+                           ast.Assert)):
+            return False              # a validation helper (assert / raise) is called for its refusal, not for a value
         if isinstance(n_, (ast.Subscript, ast.Attribute)) and isinstance(getattr(n_, "ctx", None), (ast.Store, ast.Del)):
             return False
         if isinstance(n_, ast.AugAssign) and not (isinstance(n_.target, ast.Name) and n_.target.id not in params):
